@@ -12,7 +12,7 @@
 (* a disagreement is reported ("@@V" line) and the rest of the trace is    *)
 (* still checked.                                                          *)
 (***************************************************************************)
-EXTENDS Bloc, Json, IOUtils
+EXTENDS Bloc, Json, IOUtils, StrBuiltins
 
 TraceFile == IF "TRACE" \in DOMAIN IOEnv THEN IOEnv.TRACE ELSE "trace.ndjson"
 Scn == ndJsonDeserialize(TraceFile)
@@ -115,6 +115,13 @@ RunWhy(o, S) ==      \* S = ideal state after the run
   ELSE IF ~NoResidue(o) THEN "control state left behind"
   ELSE ""
 
+\* observed value against an expected one computed by the generator from StrBuiltins
+WantOk(v, w) ==
+  CASE w.t = "strb" -> v.t = "str" /\ (IF "b" \in DOMAIN v THEN v.b = w.b ELSE Bytes(v.v) = w.b)
+    [] w.t = "u32" -> (v.t = "int" /\ w.hi < 16384 /\ v.v = w.hi * 65536 + w.lo) \/ (v.t = "bigint" /\ v.w = <<w.lo, w.hi, 0, 0>>)
+    [] w.t = "nullany" -> v.t = "null"
+    [] OTHER -> VSame(v, w)
+
 \* static type sty (as the parser reported it) against an observed value
 StaticMatches(sty, v) ==
   \/ sty.m = "undef"                                         \* opaque: nothing promised
@@ -173,6 +180,17 @@ StepResult(st, o, c, sc) ==
                  THEN "static type " \o ToJson(o.sty) \o " but the value is " \o ToJson(ObsType(o.val))
             ELSE IF o.oc = "ok" /\ ~Uniform(o.val) THEN "the value is not uniform / well formed"
             ELSE IF o.oc = "ok" /\ Has(o, "val2") /\ ~VSame(o.val, o.val2) THEN "two evaluations in the same state differ"
+            ELSE IF Has(st, "wanterr") THEN
+                 (IF o.oc = "runtime_error" /\ o.name = st.wanterr THEN "" ELSE "expected the error " \o st.wanterr \o ", got " \o o.oc \o " " \o Fld(o, "name", ""))
+            ELSE IF Has(st, "want") THEN
+                 (IF o.oc # "ok" THEN "the built-in failed (" \o o.oc \o " " \o Fld(o, "name", "") \o "); expected " \o ToJson(st.want)
+                  ELSE IF ~WantOk(o.val, st.want) THEN "wrong result " \o ToJson(o.val) \o "; expected " \o ToJson(st.want) ELSE "")
+            ELSE IF Has(st, "wantpart") THEN    \* not pinned: any BLOC outcome, but a returned string is a contiguous part of the argument
+                 (IF o.oc = "ok" /\ o.val.t = "str" /\ ~("v" \in DOMAIN o.val /\ IsPartOf(o.val.v, st.wantpart)) THEN "the result is not a part of the argument" ELSE "")
+            ELSE IF Has(st, "ok_iff_true") THEN  \* isnum(s) is true exactly when num(s) succeeds
+                 LET b == sc.obs[st.ok_iff_true] IN
+                 (IF b.oc # "ok" \/ b.val.t # "bool" THEN "isnum did not return a boolean"
+                  ELSE IF b.val.v # (o.oc = "ok") THEN "isnum says " \o ToString(b.val.v) \o " but the conversion " \o (IF o.oc = "ok" THEN "succeeds" ELSE "fails") ELSE "")
             ELSE IF o.oc = "ok" /\ Has(st, "ast") /\ ~CtxOf(c, st.ctx).unk
                  THEN LET r == Eval(st.ast, CtxOf(c, st.ctx)) IN
                       IF Failed(r.S) THEN (IF r.S.err.name = "wide" THEN "" ELSE "the specification raises an error, the evaluation succeeded")
